@@ -229,6 +229,12 @@ class Socks5Connection(ConnectionInterface):
 
         with self._connect_lock:
             if self._connection is None:
+                if self._connect_failed:  # pragma: nocover
+                    # Another request has already failed to establish this
+                    # connection, and the pool no longer tracks it. Have the
+                    # request re-assigned, rather than connecting again here.
+                    raise ConnectionNotAvailable()
+
                 stream: NetworkStream | None = None
                 try:
                     # Connect to the proxy
